@@ -6,6 +6,11 @@ import (
 
 	"github.com/muktihari/fit/decoder"
 	"github.com/muktihari/fit/encoder"
+	"github.com/muktihari/fit/profile"
+	"github.com/muktihari/fit/profile/basetype"
+	"github.com/muktihari/fit/profile/factory"
+	"github.com/muktihari/fit/profile/untyped/fieldnum"
+	"github.com/muktihari/fit/profile/untyped/mesgnum"
 	"github.com/muktihari/fit/proto"
 )
 
@@ -108,9 +113,18 @@ func c01(args []string) {
 			n = 4000
 		}
 	}
-	for i := 0; i < n; i++ {
+	odd := oddAcceptedInputs(r)
+	for i := -len(odd); i < n; i++ {
 		wellFormed := r.chance(5, 6)
-		ec, files := r.genChain(wellFormed)
+		var ec encCfg
+		var files []encFile
+		if i < 0 { // deterministic corpus of unusual values the encoder accepts: the output must still be well formed
+			wellFormed = false
+			ec, files = odd[i+len(odd)].ec, odd[i+len(odd)].files
+			stat("odd_accepted_inputs", 1)
+		} else {
+			ec, files = r.genChain(wellFormed)
+		}
 		b, wb, err := encodeChain(ec, files)
 		obs := fmt.Sprintf("EOk %s %s", coqBytes(b), coqList(wb))
 		if err != nil {
@@ -188,8 +202,65 @@ func c01(args []string) {
 				emitJSON("FAIL", "", js)
 			}
 		}
-		if i < 2 {
+		if i >= 0 && i < 2 {
 			emit("SAMPLE", fmt.Sprintf("cfg {%s} chain %d, %d messages in file 0 -> %d bytes", ec.coq(), len(files), len(files[0].msgs), len(b)))
 		}
 	}
+}
+
+type oddInput struct {
+	ec    encCfg
+	files []encFile
+}
+
+// oddAcceptedInputs: string arrays with empty elements, strings with embedded / trailing NUL, empty strings, one-element
+// arrays, values on unknown fields -- shapes that do not round-trip (outside C01) but that the encoder accepts, so what it
+// writes must still be a well-formed stream whose sizes add up (C02).
+func oddAcceptedInputs(r *rng) []oddInput {
+	loadFactory()
+	var out []oddInput
+	strs := [][]string{{"left", "", "right"}, {"", "a"}, {"a", ""}, {""}, {"", ""}, {"a\x00b"}, {"a\x00", "b"}, {"\x00"}, {"é", "", "ü"}}
+	scalars := []string{"", "a\x00b", "a\x00", "\x00", "\x00\x00a"}
+	for _, big := range []bool{false, true} {
+		for _, comp := range []bool{false, true} {
+			ec := encCfg{bigEndian: big, headerSize: 14, protoVer: proto.V2, localTypes: 2}
+			if comp {
+				ec.headerOpt = encoder.HeaderOptionCompressedTimestamp
+			}
+			var msgs []proto.Message
+			msgs = append(msgs, fileIdMesg(r))
+			for _, ss := range strs {
+				m := proto.Message{Num: mesgnum.FieldDescription}
+				f := factory.CreateField(mesgnum.FieldDescription, fieldnum.FieldDescriptionFieldName)
+				f.Value = proto.SliceString(ss)
+				m.Fields = append(m.Fields, f)
+				u := factory.CreateField(mesgnum.FieldDescription, fieldnum.FieldDescriptionUnits)
+				u.Value = proto.SliceString(ss)
+				m.Fields = append(m.Fields, u)
+				msgs = append(msgs, m)
+				// the same values on an unknown string field
+				x := proto.Message{Num: 0xFF20}
+				xf := factory.CreateField(0xFF20, 1)
+				xf.BaseType, xf.Type, xf.Array = basetype.String, profile.String, true
+				xf.Value = proto.SliceString(ss)
+				x.Fields = append(x.Fields, xf)
+				msgs = append(msgs, x)
+			}
+			for _, sv := range scalars {
+				m := proto.Message{Num: mesgnum.FileId}
+				f := factory.CreateField(mesgnum.FileId, fieldnum.FileIdProductName)
+				f.Value = proto.String(sv)
+				m.Fields = append(m.Fields, f)
+				t := factory.CreateField(mesgnum.FileId, fieldnum.FileIdType)
+				t.Value = proto.Uint8(4)
+				m.Fields = append(m.Fields, t)
+				msgs = append(msgs, m)
+			}
+			// one message per file so that a rejected shape does not hide the others
+			for _, m := range msgs[1:] {
+				out = append(out, oddInput{ec, []encFile{{hsize: 14, msgs: []proto.Message{msgs[0], m}}}})
+			}
+		}
+	}
+	return out
 }
